@@ -192,6 +192,15 @@ MUTANTS = [
     ("C04", "unified_planning/engines/plan_validator.py",
      "                        else:\n                            raise UPConflictingEffectsException(\"Double effect\")\n                    else:\n                        updates[f] = v\n                        if eff.is_assignment():",
      "                        else:\n                            updates[f] = v\n                    else:\n                        updates[f] = v\n                        if eff.is_assignment():", "_apply_effects"),
+    ("C20", "unified_planning/grpc/proto_reader.py",
+     "        str_ub = s.split(\",\")[1].split(\"]\")[0].strip()", "        str_ub = s.split(\",\")[1].split(\"]\")[0]", "real types"),
+    ("C20", "unified_planning/grpc/proto_reader.py",
+     "        ub = None if \"inf\" in str_ub else int(str_ub)", "        ub = None if \"inf\" in str_ub else int(str_lb)", "int types"),
+    ("C20", "unified_planning/grpc/proto_reader.py",
+     "            lower_bound=None if str_lb == \"-inf\" else fractions.Fraction(str_lb),", "            lower_bound=None if str_lb == \"-inf\" else fractions.Fraction(str_ub),", "real types"),
+    ("C20", "unified_planning/model/types.py",
+     "            b.append(\"-inf\" if self.lower_bound is None else str(self.lower_bound))\n            b.append(\", \")\n            b.append(\"inf\" if self.upper_bound is None else str(self.upper_bound))\n            b.append(\"]\")\n        return \"real\" + \"\".join(b)",
+     "            b.append(\"-inf\" if self.lower_bound is None else str(self.lower_bound))\n            b.append(\", \")\n            b.append(\"+inf\" if self.upper_bound is None else str(self.upper_bound))\n            b.append(\"]\")\n        return \"real\" + \"\".join(b)", "real types"),
     ("C11", "unified_planning/model/walkers/simplifier.py",
      "            return self.manager.Bool(not l)", "            return self.manager.Bool(l)", "walk_not"),
 ]
@@ -332,6 +341,18 @@ def f_ext2(a, b):
     return (math.isnan(r), math.isnan(q), r == float("inf"), q == -float("inf"), isinstance(r, int), isinstance(q, float), x > y, x >= y, x != y)
 
 
+def f_seg(a, b):
+    from fractions import Fraction
+    s = f"up:integer[{a}, {b}]"
+    lb = s.split("[")[1].split(",")[0]
+    ub = s.split(",")[1].split("]")[0]
+    q = Fraction(a, 7)
+    t = "real[" + str(q) + ", inf]"
+    lo = t.split("[")[1].split(",")[0].strip()
+    hi = t.split(",")[1].split("]")[0].strip()
+    return ("-inf" in lb, int(lb), int(ub), "up:integer[" in s, s == "up:integer", Fraction(lo) == q, hi == "inf", s.startswith("up:"), "".join(["x", str(b), "y"]) == "xy")
+
+
 def f_while(n):
     i, acc = 0, 0
     while i < n:
@@ -435,6 +456,7 @@ def engine():
             "f_sym2": lambda: (rng.randint(-1, 4), rng.randint(-3, 3)),
             "f_ext": lambda: (rng.randint(-2, 3), rng.randint(0, 6), rng.randint(-2, 2)),
             "f_ext2": lambda: (rng.randint(-2, 3), rng.randint(-3, 2)),
+            "f_seg": lambda: (rng.randint(-30, 30), rng.randint(-10 ** 12, 10 ** 12)),
         }
         bad = total = unsupported = abstracted = 0
         for name, gen in cases.items():
@@ -447,6 +469,7 @@ def engine():
                     want = ("raise", type(ex).__name__)
                 eng = Engine()
                 eng.noinline = set()
+                eng.exact_strings = True
                 st = State()
                 try:
                     outs = list(eng.run(fn, st, [_lift(st, a) for a in _copy(args)], {}))
@@ -471,11 +494,12 @@ def engine():
         #      path must be consistent with the input and its symbolic result must evaluate to CPython's result
         import z3
         from pyvc.values import Int as PInt
-        sym_cases = {"f_arith": 2, "f_sym1": 3, "f_sym2": 2, "f_exc": 2, "f_none": 1, "f_ext": 3, "f_ext2": 2}
+        sym_cases = {"f_arith": 2, "f_sym1": 3, "f_sym2": 2, "f_exc": 2, "f_none": 1, "f_ext": 3, "f_ext2": 2, "f_seg": 2}
         sbad = stotal = 0
         for name, arity in sym_cases.items():
             fn = getattr(mod, name)
             eng = Engine()
+            eng.exact_strings = True
             st = State()
             args = [PInt.fresh(f"a{i}") for i in range(arity)]
             try:
